@@ -422,6 +422,9 @@ class Tr:
             return f"(nonempty {text})"
         if ty == "OIVL" and want == "B":
             return f"(negb (is_none {text}))"        # an Interval object is always truthy
+        r = pysrc_mem.coerce_hook(self, text, ty, want)          # (extension mem)
+        if r is not None:
+            return r
         raise Unsupported(f"cannot use {ty} as {want} {what}")
 
     def unify(self, t1, t2):
@@ -567,6 +570,9 @@ class Tr:
         return "(" + (" && " if is_and else " || ").join(out) + ")"
 
     def expr0_rest(self, e, env, want):
+        r = pysrc_mem.expr_hook(self, e, env, want)              # (extension mem)
+        if r is not None:
+            return r
         if isinstance(e, ast.Compare):
             return self.compare(e, env)
         if isinstance(e, ast.UnaryOp):
@@ -1093,6 +1099,9 @@ class Tr:
                 v = h["recv"]
                 pre += f"{pad}let '({cname(v)}, {h['var']}) := {h['text']} in\n" + self.write_back(env, v, pad)
                 env = self.kill(env, v)
+            elif h["kind"] == "state":                           # (extension mem)
+                a, b = pysrc_mem.hoist_state(h, pad)
+                pre, post = pre + a, post + b
             else:
                 pre += f"{pad}res_bind {h['text']} (fun {h['var']} =>\n"
                 post += ")"
@@ -1210,6 +1219,12 @@ class Tr:
             for lst in sorted(alias_of.get(v, ())):
                 add(lst)
         for sub in ast.walk(mod):
+            ah = pysrc_mem.assigned_hook(self, sub, env)         # (extension mem)
+            if ah is not None:
+                for k in ah[0]:
+                    add(k)
+                if ah[1]:
+                    continue
             if isinstance(sub, ast.Call) and isinstance(sub.func, ast.Attribute) and sub.func.attr in self.mut_names:
                 r = sub.func.value
                 if isinstance(r, ast.Name):
@@ -1434,6 +1449,9 @@ class Tr:
             return self.block(rest, env, fin, ind)           # docstring
         if isinstance(s, ast.Pass):
             return self.block(rest, env, fin, ind)
+        r = pysrc_mem.stmt_hook(self, s, rest, env, fin, ind)    # (extension mem)
+        if r is not None:
+            return r
         if isinstance(s, ast.With):
             if not all(ast.unparse(it.context_expr) in self.with_ok and it.optional_vars is None for it in s.items):
                 raise Unsupported("with")
@@ -2222,7 +2240,11 @@ class Tr:
         self.last_raises = None
         kind = self.kind
         a = fdef.args
-        if (a.vararg and a.vararg.arg != spec.get("vararg")) or (a.kwarg and a.kwarg.arg != spec.get("kwarg")):
+        # (tsmall) spec["vararg"] / spec["kwarg"] name the parameter; (extension mem) spec["kwarg"] may instead
+        # give the dict type of **kw (an upper-case type name)
+        kwspec = spec.get("kwarg")
+        kw_ok = a.kwarg is None or (kwspec and (kwspec == a.kwarg.arg or kwspec.isupper()))
+        if (a.vararg and a.vararg.arg != spec.get("vararg")) or not kw_ok:
             raise Unsupported("*args / **kwargs parameters")
         pyargs = [x.arg for x in a.posonlyargs + a.args + a.kwonlyargs]
         pyargs += [x.arg for x in (a.vararg, a.kwarg) if x is not None]      # (tsmall) declared by the spec
@@ -2285,6 +2307,8 @@ class Tr:
                 if isinstance(sub, ast.Try) and len(sub.handlers) == 1 and \
                         isinstance(sub.handlers[0].type, ast.Name) and sub.handlers[0].type.id == "StopIteration":
                     continue        # try: x = next(it) except StopIteration: .. needs no res
+                if pysrc_mem.try_effect_form(self, sub) is not None:
+                    continue        # (extension mem) try: <effect>; return .. except E: .. needs no res
                 if isinstance(sub, (ast.Raise, ast.Try)) and not self.res:
                     raise Unsupported(f"{type(sub).__name__} in a function without a res result")
         wrap = (lambda t: f"(RDone {t})") if self.res else (lambda t: t)
@@ -2379,11 +2403,18 @@ class Tr:
             if not self.state:
                 raise Unsupported("a proc needs state variables")
             tup = " * ".join(self.coq_type(self.genparams[v]) for v in self.state)
+            if spec.get("ret"):                                  # (extension mem) a procedure with a result
+                rt_ = self.coq_type(spec["ret"])
+                tup += f" * {rt_ if ' ' not in rt_ else '(' + rt_ + ')'}"
             if spec.get("yields"):
                 tup += f" * list {self.out_type}"
             tup = f"({tup})" if (" " in tup) else tup
 
             def fin(e2, k, v=None):
+                if spec.get("ret") and k in ("end", "return"):       # (extension mem)
+                    if k == "end" or v is None or spec.get("yields"):
+                        raise Unsupported("a procedure with a result falls off its end / returns nothing")
+                    return wrap("(" + ", ".join([v2 for v2 in self.state] + [v]) + ")")
                 if k in ("end", "return"):
                     items = [v2 for v2 in self.state] + (["out"] if spec.get("yields") else [])
                     return wrap(items[0] if len(items) == 1 else "(" + ", ".join(items) + ")")
@@ -2831,3 +2862,6 @@ def translate_all(repo: Path, specs, header=HEADER):
             errors[name] = f"{type(ex).__name__}: {ex}"
             out.append(f"(* {name}: NOT TRANSLATED — {str(ex).replace('*)', '* )')} *)\n")
     return "\n".join(out), errors
+
+
+from . import pysrc_mem  # noqa: E402  (extension mem: hooks called from Tr; imported last, it imports this module)
